@@ -189,7 +189,12 @@ class RCtx:
 
 def real_ref(a, rx: RCtx):
     if "r" in a:
-        return rx.refs[a["r"]][rx.rep]
+        from sim.machine import Skip
+
+        d = rx.refs.get(a["r"])
+        if d is None or rx.rep not in d:
+            raise Skip(f"reference {a['r']} does not exist on replica {rx.rep}")
+        return d[rx.rep]
     if "c" in a:
         return getattr(pdt.C, a["c"])
     if "o" in a:
@@ -222,7 +227,12 @@ def _ctx_kwargs(rec, rx: RCtx):
 def real_expr(rec, rx: RCtx):
     e = rec["e"]
     if e == "pool":
-        return rx.exprs[rec["x"]][rx.rep]
+        from sim.machine import Skip
+
+        d = rx.exprs.get(rec["x"])
+        if d is None or rx.rep not in d:
+            raise Skip(f"expression {rec['x']} does not exist on replica {rx.rep}")
+        return d[rx.rep]
     if e == "lit":
         return pdt.lit(rec["v"])
     if e == "ref":
